@@ -107,7 +107,10 @@ R6  expansion shape: inclusive daily pd.date_range over the two effective dates
     the per-day loop iterates over is followed to that call - through locals, list()/tuple()
     copies, comprehensions / generator expressions / `filter(lambda ...)` whose element is
     the date itself, and small repository functions that return such an expression or are
-    a generator of the shape `for d in <dates>: if c: yield d`; a slice that is not the
+    a generator of the shape `for d in <dates>: if c: yield d`, and a list that an earlier
+    loop of the same block fills with its own loop variable (`L = []; for d in <dates>:
+    if c: L.append(d)` is `[d for d in <dates> if c]`; that filling loop is then not a
+    per-day loop of its own); a slice that is not the
     whole sequence is a violation, a mapped or reordered sequence is undecided.  Per
     date the instance is skipped exactly when its weekday is not in the operating set or
     its arrival precedes its departure (the latter only with the warning) — decided on
@@ -1596,10 +1599,88 @@ def _opened_iterable(prog, fi, c: ast.Call):
     return None
 
 
+def _block_of(st: ast.stmt):
+    """the statement list st is an element of (through its parent link), or None"""
+    par = parent(st)
+    if par is None:
+        return None
+    for f in ('body', 'orelse', 'finalbody'):
+        lst = getattr(par, f, None)
+        if isinstance(lst, list) and any(x is st for x in lst):
+            return lst
+    for h in getattr(par, 'handlers', []) or []:
+        if any(x is st for x in h.body):
+            return h.body
+    return None
+
+
+def _accumulated_list(fn: ast.AST, name: str, use: ast.AST | None = None):
+    """The local `name` when it is a list that one loop fills with its own loop variable,
+        name = []   (or list())
+        for d in <dates>:  [if not c: continue]*  [if c:]*  name.append(d)
+    which, once that loop has ended, is the list `[d for d in <dates> if c]`: -> (that comprehension, the filling loop), else
+    None.  Required: `name` is bound once; the binding and the filling loop are statements of the same block, the loop the
+    later one; that append is the only in-place change of `name` in fn and the only mention of `name` inside the loop; and
+    `use` (the expression that reads the list, a node of fn) is evaluated after the loop has ended - it sits in a later
+    statement of that block.  (The shape astutil.drains_as_loops + splice_generator_loops leave for `name = list(gen(..))`,
+    and what a developer writes by hand for it.)"""
+    ds = local_defs(fn, name)
+    if len(ds) != 1:
+        return None
+    v = single_def_value(fn, name)
+    empty = (isinstance(v, ast.List) and not v.elts) or \
+        (isinstance(v, ast.Call) and isinstance(v.func, ast.Name) and v.func.id == 'list' and not v.args and not v.keywords)
+    if not empty:
+        return None
+    muts = [x for x in walk_no_nested(fn) if isinstance(x, ast.Call) and isinstance(x.func, ast.Attribute)
+            and x.func.attr in _SEQ_MUTATORS and isinstance(x.func.value, ast.Name) and x.func.value.id == name]
+    if len(muts) != 1 or muts[0].func.attr != 'append' or len(muts[0].args) != 1 or muts[0].keywords:
+        return None
+    for x in walk_no_nested(fn):
+        if isinstance(x, ast.Subscript) and isinstance(x.ctx, (ast.Store, ast.Del)) and isinstance(x.value, ast.Name) and x.value.id == name:
+            return None
+        if isinstance(x, ast.Delete) and any(isinstance(t, ast.Name) and t.id == name for t in x.targets):
+            return None
+    app = muts[0]
+    lp = next((a for a in ancestors(app) if isinstance(a, (ast.For, ast.While, ast.AsyncFor))), None)
+    if not isinstance(lp, ast.For) or lp.orelse or not isinstance(lp.target, ast.Name) \
+            or not (isinstance(app.args[0], ast.Name) and app.args[0].id == lp.target.id):
+        return None
+    conds, inner = [], list(lp.body)
+    while len(inner) > 1 and isinstance(inner[0], ast.If) and not inner[0].orelse and len(inner[0].body) == 1 \
+            and isinstance(inner[0].body[0], ast.Continue):
+        conds.append(ast.copy_location(ast.UnaryOp(op=ast.Not(), operand=inner[0].test), inner[0].test))
+        inner = inner[1:]
+    while len(inner) == 1 and isinstance(inner[0], ast.If) and not inner[0].orelse:
+        conds.append(inner[0].test)
+        inner = list(inner[0].body)
+    if not (len(inner) == 1 and isinstance(inner[0], ast.Expr) and inner[0].value is app):
+        return None
+    if sum(1 for x in ast.walk(lp) if isinstance(x, ast.Name) and x.id == name) != 1 \
+            or any(isinstance(y, (ast.Yield, ast.YieldFrom, ast.Await, ast.NamedExpr)) for cnd in conds for y in ast.walk(cnd)):
+        return None
+    blk = _block_of(lp)
+    if blk is None or not any(x is ds[0] for x in blk):
+        return None
+    idx = lambda st: next(i for i, x in enumerate(blk) if x is st)
+    if idx(ds[0]) >= idx(lp):
+        return None
+    if use is not None:
+        top = next((a for a in [use, *ancestors(use)] if any(x is a for x in blk)), None)
+        if top is None or idx(top) <= idx(lp):
+            return None
+    comp = ast.ListComp(elt=ast.Name(id=lp.target.id, ctx=ast.Load()),
+                        generators=[ast.comprehension(target=lp.target, iter=lp.iter, ifs=conds, is_async=0)])
+    ast.copy_location(comp, lp)
+    ast.copy_location(comp.elt, lp)
+    return comp, lp
+
+
 def _range_pipeline(fn: ast.AST, it: ast.expr, depth: int = 0, prog=None, fi=None):
     """What a per-day loop iterates over, when that is the dates of one pd.date_range call, possibly *filtered* on the way:
     -> (date_range call, [(condition, name of the date in it, node)], [(node, what)] restrictions) or None.
-    Followed: locals bound once and not changed in place, list()/tuple()/iter() copies, comprehensions / generator
+    Followed: locals bound once and not changed in place, a list filled by one loop that appends its own loop variable
+    (`_accumulated_list`: the comprehension it is), list()/tuple()/iter() copies, comprehensions / generator
     expressions whose element is the date itself (`[d for d in <dates> if c]`), `filter(lambda d: c, <dates>)`, calls of
     small repository functions that return such an expression or are a generator of that shape (`_opened_iterable`), and
     slices (a slice that is not the whole sequence is a *restriction*: some dates of the range never reach the loop).
@@ -1612,6 +1693,9 @@ def _range_pipeline(fn: ast.AST, it: ast.expr, depth: int = 0, prog=None, fi=Non
             and len(it.args) == 1 and not it.keywords:
         it = it.args[0]
     if isinstance(it, ast.Name):
+        acc = _accumulated_list(fn, it.id, it)
+        if acc is not None:
+            return rec(acc[0])
         v = single_def_value(fn, it.id)
         if v is None or _mutated_in(fn, it.id):
             return None
@@ -1659,6 +1743,19 @@ def _date_loop(prog, sch):
             pl = _range_pipeline(sch.node, lp.iter, 0, prog, sch)
             if pl is not None:
                 piped.append((pl[0], lp, lp.target.id))
+    if len(piped) > 1:
+        # a loop that only collects the dates in a list which another of these loops then runs over is part of that
+        # loop's iterable, not a per-day loop of its own
+        feeders = []
+        for _, lp, _ in piped:
+            it = lp.iter
+            while isinstance(it, ast.Call) and isinstance(it.func, ast.Name) and it.func.id in ('list', 'tuple', 'iter') \
+                    and len(it.args) == 1 and not it.keywords:
+                it = it.args[0]
+            acc = _accumulated_list(sch.node, it.id, it) if isinstance(it, ast.Name) else None
+            if acc is not None:
+                feeders.append(acc[1])
+        piped = [p_ for p_ in piped if not any(p_[1] is f for f in feeders)]
     if len(piped) == 1:
         return piped[0]
     dr = [c for c in calls_in(sch.node) if call_name(c).split('.')[-1] == 'date_range']
